@@ -18,6 +18,12 @@ Tie to the source:
       Jacobian == derivative of the numeric rhs, closure == that derivative (also after a parameter
       update), convertible models convert in every declaration order, unconvertible ones raise /
       fall back, and Jacobian-enabled simulations (LSODA/BDF/Radau) reproduce the plain ones.
+      Models WITH surrogates (MockSurrogate / surrogates.qss.Surrogate) are generated too: whenever the
+      right-hand side depends on a surrogate the conversion has to raise, the simulator has to fall back
+      WITH a warning and simulate like the Jacobian-free one; a conversion that returns equations over a
+      surrogate output is evaluated with the output bound to the model's own number and compared with the
+      exact right-hand side / derivative (Coq: C12_surrogate_output_refused, regression theorem
+      C12_surrogate_merged_table_refuted for the merged symbol table).
 """
 
 from __future__ import annotations
